@@ -1082,3 +1082,92 @@ package netty
 //@   ensures timer_released_under_lock: evis(0, "lock r.mutex") && count("lock r.mutex") == 1 && at(first("unlock r.mutex"), r.handlerCtx == nil && r.readTimer == nil) && count("Timer).Stop") <= 1 && count("Timer).Reset") == 0 && count("time.AfterFunc") == 0
 //@   ensures existing_timer_stopped: at(first("lock r.mutex") + 1, implies(r.readTimer != nil, count("Timer).Stop") == 1 && evarg(first("Timer).Stop"), 0) == r.readTimer))
 //@   ensures then_forwards: implies(!panicked(), evis(nemitted()-1, "InactiveContext.HandleInactive") && evrecv(nemitted()-1) == ctx && evarg(nemitted()-1, 0) == ex && first("unlock r.mutex") < nemitted()-1)
+//@ assume iface HandlerContext.Trigger
+//@   modifies all
+//@   may_panic true
+//@ func ReadIdleHandler
+//@   panics_iff idleTime < 1000000000
+//@   ensures configured: is(result, *readIdleHandler) && as(result, *readIdleHandler).idleTime == idleTime && as(result, *readIdleHandler).readTimer == nil && as(result, *readIdleHandler).handlerCtx == nil && fresh(as(result, *readIdleHandler))
+// active: context cached, clock read, timer armed for one full idle period - in one critical section
+//@ func (*readIdleHandler).HandleActive
+//@   requires r != nil && ctx != nil
+//@   may_panic true
+//@   modifies all
+//@   ensures armed_under_lock: evis(0, "lock r.mutex") && count("lock r.mutex") == 1 && evis(1, "time.Now") && evis(2, "time.AfterFunc") && evis(3, "unlock r.mutex") && evarg(2, 0) == old(r.idleTime) && isbound(evarg(2, 1), "onReadTimeout", r)
+//@   ensures state_after_arming: at(3, r.handlerCtx == ctx && r.lastReadTime == evres(1, 0) && r.readTimer == evres(2, 0) && r.idleTime == old(r.idleTime))
+//@   ensures then_forwards: implies(!panicked(), nemitted() == 5 && evis(4, "ActiveContext.HandleActive") && evrecv(4) == ctx)
+// read: forwarded first; then the last-read time is refreshed and the timer (if still armed) restarted
+//@ func (*readIdleHandler).HandleRead
+//@   requires r != nil && ctx != nil
+//@   may_panic true
+//@   modifies all
+//@   ensures forwards_first: evis(0, "InboundContext.HandleRead") && evrecv(0) == ctx && evarg(0, 0) == message
+//@   ensures refreshes_under_lock: implies(!panicked(), evis(1, "lock r.mutex") && evis(2, "time.Now") && evis(nemitted()-1, "unlock r.mutex") && count("lock r.mutex") == 1 && at(nemitted()-1, r.lastReadTime == evres(2, 0)))
+//@   ensures restarts_armed_timer: implies(!panicked(), at(2, implies(r.readTimer != nil, count("Timer).Reset") == 1 && evarg(first("Timer).Reset"), 0) == r.readTimer && evarg(first("Timer).Reset"), 1) == r.idleTime) && implies(r.readTimer == nil, count("Timer).Reset") == 0)) && count("time.AfterFunc") == 0)
+// timer callback: fires only when a full idle period has elapsed since the last read time read
+// under the lock and a context is cached; never panics; re-arms only a timer that still exists.
+//@ func (*readIdleHandler).onReadTimeout
+//@   requires r != nil
+//@   modifies all
+//@   ensures reads_state_under_read_lock: evis(0, "rlock r.mutex") && evis(1, "time.Since") && evis(2, "runlock r.mutex") && at(1, evarg(1, 0) == r.lastReadTime)
+//@   ensures fires_only_after_full_idle_period: count("HandlerContext.Trigger") <= 1 && implies(count("HandlerContext.Trigger") == 1, at(1, evres(1, 0) >= r.idleTime && r.handlerCtx != nil && evrecv(first("HandlerContext.Trigger")) == r.handlerCtx) && first("HandlerContext.Trigger") == 3 && is(evarg(3, 0), ReadIdleEvent))
+//@   ensures fires_when_idle: at(1, implies(evres(1, 0) >= r.idleTime && r.handlerCtx != nil, count("HandlerContext.Trigger") == 1))
+//@   ensures never_after_inactive: at(1, implies(r.handlerCtx == nil, count("HandlerContext.Trigger") == 0))
+//@   ensures panic_routed_as_exception: count("Pipeline.FireChannelException") <= 1 && implies(count("Pipeline.FireChannelException") == 1, count("HandlerContext.Trigger") == 1 && first("HandlerContext.Trigger") < first("Pipeline.FireChannelException"))
+//@   ensures rearms_only_existing_timer: evis(nemitted()-1, "runlock r.mutex") && count("rlock r.mutex") == 2 && at(last("rlock r.mutex") + 1, implies(r.readTimer != nil, evis(nemitted()-2, "Timer).Reset") && evarg(nemitted()-2, 0) == r.readTimer && evarg(nemitted()-2, 1) == r.idleTime) && implies(r.readTimer == nil, count("Timer).Reset") == 0)) && count("time.AfterFunc") == 0 && count("Timer).Reset") <= 1
+
+// the write-idle handler mirrors the read-idle handler; HandleWrite refreshes BEFORE forwarding
+//@ func (*writeIdleHandler).withLock
+//@   inline
+//@ func (*writeIdleHandler).withReadLock
+//@   inline
+//@ func WriteIdleHandler
+//@   panics_iff idleTime < 1000000000
+//@   ensures configured: is(result, *writeIdleHandler) && as(result, *writeIdleHandler).idleTime == idleTime && as(result, *writeIdleHandler).writeTimer == nil && as(result, *writeIdleHandler).handlerCtx == nil && fresh(as(result, *writeIdleHandler))
+//@ func (*writeIdleHandler).HandleActive
+//@   requires w != nil && ctx != nil
+//@   may_panic true
+//@   modifies all
+//@   ensures armed_under_lock: evis(0, "lock w.mutex") && count("lock w.mutex") == 1 && evis(1, "time.Now") && evis(2, "time.AfterFunc") && evis(3, "unlock w.mutex") && evarg(2, 0) == old(w.idleTime) && isbound(evarg(2, 1), "onWriteTimeout", w)
+//@   ensures state_after_arming: at(3, w.handlerCtx == ctx && w.lastWriteTime == evres(1, 0) && w.writeTimer == evres(2, 0) && w.idleTime == old(w.idleTime))
+//@   ensures then_forwards: implies(!panicked(), nemitted() == 5 && evis(4, "ActiveContext.HandleActive") && evrecv(4) == ctx)
+//@ func (*writeIdleHandler).HandleWrite
+//@   requires w != nil && ctx != nil
+//@   may_panic true
+//@   modifies all
+//@   ensures refreshes_under_lock: evis(0, "lock w.mutex") && evis(1, "time.Now") && count("lock w.mutex") == 1 && at(first("unlock w.mutex"), w.lastWriteTime == evres(1, 0))
+//@   ensures restarts_armed_timer: at(1, implies(w.writeTimer != nil, count("Timer).Reset") == 1 && evarg(first("Timer).Reset"), 0) == w.writeTimer && evarg(first("Timer).Reset"), 1) == w.idleTime) && implies(w.writeTimer == nil, count("Timer).Reset") == 0)) && count("time.AfterFunc") == 0
+//@   ensures then_forwards: implies(!panicked(), evis(nemitted()-1, "OutboundContext.HandleWrite") && evrecv(nemitted()-1) == ctx && evarg(nemitted()-1, 0) == message && first("unlock w.mutex") < nemitted()-1)
+//@ func (*writeIdleHandler).HandleInactive
+//@   requires w != nil && ctx != nil
+//@   may_panic true
+//@   modifies all
+//@   ensures timer_released_under_lock: evis(0, "lock w.mutex") && count("lock w.mutex") == 1 && at(first("unlock w.mutex"), w.handlerCtx == nil && w.writeTimer == nil) && count("Timer).Stop") <= 1 && count("Timer).Reset") == 0 && count("time.AfterFunc") == 0
+//@   ensures existing_timer_stopped: at(first("lock w.mutex") + 1, implies(w.writeTimer != nil, count("Timer).Stop") == 1 && evarg(first("Timer).Stop"), 0) == w.writeTimer))
+//@   ensures then_forwards: implies(!panicked(), evis(nemitted()-1, "InactiveContext.HandleInactive") && evrecv(nemitted()-1) == ctx && evarg(nemitted()-1, 0) == ex && first("unlock w.mutex") < nemitted()-1)
+//@ func (*writeIdleHandler).onWriteTimeout
+//@   requires w != nil
+//@   modifies all
+//@   ensures reads_state_under_read_lock: evis(0, "rlock w.mutex") && evis(1, "time.Since") && evis(2, "runlock w.mutex") && at(1, evarg(1, 0) == w.lastWriteTime)
+//@   ensures fires_only_after_full_idle_period: count("HandlerContext.Trigger") <= 1 && implies(count("HandlerContext.Trigger") == 1, at(1, evres(1, 0) >= w.idleTime && w.handlerCtx != nil && evrecv(first("HandlerContext.Trigger")) == w.handlerCtx) && first("HandlerContext.Trigger") == 3 && is(evarg(3, 0), WriteIdleEvent))
+//@   ensures fires_when_idle: at(1, implies(evres(1, 0) >= w.idleTime && w.handlerCtx != nil, count("HandlerContext.Trigger") == 1))
+//@   ensures never_after_inactive: at(1, implies(w.handlerCtx == nil, count("HandlerContext.Trigger") == 0))
+//@   ensures panic_routed_as_exception: count("Pipeline.FireChannelException") <= 1 && implies(count("Pipeline.FireChannelException") == 1, count("HandlerContext.Trigger") == 1 && first("HandlerContext.Trigger") < first("Pipeline.FireChannelException"))
+//@   ensures rearms_only_existing_timer: evis(nemitted()-1, "runlock w.mutex") && count("rlock w.mutex") == 2 && at(last("rlock w.mutex") + 1, implies(w.writeTimer != nil, evis(nemitted()-2, "Timer).Reset") && evarg(nemitted()-2, 0) == w.writeTimer && evarg(nemitted()-2, 1) == w.idleTime) && implies(w.writeTimer == nil, count("Timer).Reset") == 0)) && count("time.AfterFunc") == 0 && count("Timer).Reset") <= 1
+
+// The lock invariant that ties the pieces together: a timer exists only while a context is cached
+// (armed on active, both cleared on inactive), so "no timer => nothing re-arms" and "no context =>
+// nothing fires" cover everything after inactive except the one callback already past its read.
+//@ struct readIdleHandler lockinv mutex timer_only_while_active: implies(self.readTimer != nil, self.handlerCtx != nil)
+//@ struct writeIdleHandler lockinv mutex timer_only_while_active: implies(self.writeTimer != nil, self.handlerCtx != nil)
+
+// C20 composition (time stamps of the critical sections of one handler's mutex; after the inactive
+// event no active event follows (C05), so context and timer stay nil from tInactive on):
+//   sawCtx <=> tRead < tInactive           HandleInactive#timer_released_under_lock, HandleActive only before (C05)
+//   fired => sawCtx                        onReadTimeout#never_after_inactive
+//   sawTimer <=> tRearm < tInactive        same critical sections, lock invariant timer_only_while_active
+//   rearmed <=> sawTimer                   onReadTimeout#rearms_only_existing_timer
+// conclusion: a callback that starts after inactive neither fires nor re-arms; a re-arm can only
+// precede inactive's critical section, whose Stop (existing_timer_stopped) then releases the timer;
+// at most the one callback whose first section preceded inactive may still deliver an event.
+//@ lemma idle_quiet_after_inactive(tRead int, tRearm int, tInactive int, sawCtx bool, fired bool, sawTimer bool, rearmed bool) implies(tRead < tRearm && tRead != tInactive && tRearm != tInactive && iff(sawCtx, tRead < tInactive) && implies(fired, sawCtx) && iff(sawTimer, tRearm < tInactive) && iff(rearmed, sawTimer), implies(tInactive < tRead, !fired && !rearmed) && implies(rearmed, tRearm < tInactive))
